@@ -274,6 +274,12 @@ impl Lexer {
     #[allow(clippy::too_many_lines)]
     fn next_token(&mut self) -> Option<Result<Token, LexError>> {
         self.skip_ws();
+        // A dot that does not start a directive is skipped (in a loop: a long run of
+        // dots must not use one stack frame each)
+        while self.current() == Some('.') && !self.peek(1).is_some_and(Self::is_symbol_char) {
+            self.consume_char();
+            self.skip_ws();
+        }
 
         // TODO(rajan): ensure that we are consistent with whether the tokens are included or not in the Token representation
         // TODO(rajan): should we introduce a new token type for the comment hash (#) and directive hash (.)?
